@@ -322,9 +322,10 @@ class MessageQueue(Entity):
 
         yield self._delivery_latency
 
-        # Create delivery event
+        # Create delivery event (stamped after the delivery latency has elapsed:
+        # an event carrying the dispatch time would be in the past and dropped)
         delivery_event = Event(
-            time=now,
+            time=self._clock.now if self._clock else now,
             event_type="message_delivery",
             target=consumer,
             context={
